@@ -28,6 +28,9 @@ CFGS_QUICK = [("ai", "MP4", "IP_A"), ("at", "MP4", "IP_A"), ("bi", "MP4", "IP_B"
 CFGS_THOROUGH = CFGS_QUICK + [("dt", "MP5", "IP_D"), ("ei", "MP5", "IP_E")]
 
 
+LOOSE = ("TraceFibreIrqLoose", "TraceFibreIrqLoose.cfg", lambda r: len(r.get("isr", [])) <= 4)
+
+
 def conv(name, args):
     return "S %d" % (args[0] if args else 0)
 
@@ -68,14 +71,14 @@ def run_irq(run, for_c03=False, exe=None, cfgs=None, nrandom=None, tagp="", vali
                 shutil.copyfileobj(f, out)
             os.unlink(t)
     if validate:
-        check_trace(run, "irq-edge-cover", "TraceFibreIrq", "TraceFibreIrq.cfg", allp)
+        check_trace(run, "irq-edge-cover", "TraceFibreIrq", "TraceFibreIrq.cfg", allp, loose=LOOSE)
     if not run.samples:
         sample_trace(run, allp, 8)
     n = nrandom or (3000 if run.thorough() else 400)
     gen = "Gen %d %d 1\n" % (run.seed * 10 + 1, n) + ("" if for_c03 else "Gen %d %d 0\n" % (run.seed * 10 + 2, n))
     tr = exec_script(run, exe, [], gen, run.path(tagp + "firq-random.ndjson"), "irq-random-schedules")
     if validate:
-        check_trace(run, "irq-random-schedules", "TraceFibreIrq", "TraceFibreIrq.cfg", tr)
+        check_trace(run, "irq-random-schedules", "TraceFibreIrq", "TraceFibreIrq.cfg", tr, loose=LOOSE)
     return [allp, tr]
 
 
